@@ -655,6 +655,23 @@ def targeted_extends_model(rng):
          "extends": "td", "implements": None, "children": []},
     ]
     w = types[0]["children"][0]
+    # unnamed section slots in front of (or behind) the wildcard key: the
+    # base type then has more children than named ones
+    if rng.random() < 0.5:
+        leafs = [{"kind": "section", "name": n, "keytype": None,
+                  "datatype": None, "extends": None, "implements": None,
+                  "children": []} for n in ("tl", "tl2")]
+        types[0:0] = leafs
+        slots = [{"kind": "multisection", "name": "*", "type": "tl",
+                  "required": False, "handler": None, "attribute": "subs"},
+                 {"kind": "section", "name": rng.choice(["*", "+"]),
+                  "type": "tl2", "required": False, "handler": None,
+                  "attribute": "sub1"}][:rng.randint(1, 2)]
+        tb = types[2]
+        if rng.random() < 0.7:
+            tb["children"][0:0] = slots
+        else:
+            tb["children"].extend(slots)
     if w["kind"] == "key":
         seen = set()
         keep = []
